@@ -44,6 +44,7 @@ FAULTS = [
     ("unsupported-index", "inc 0x10,y"), ("unsupported-index", "jmp [0x10],x"), ("unsupported-index", "lda.b #1,s"),
     ("unsupported-index", "sta [0x10],x"), ("unsupported-index", "jsr (0x1234),y"), ("unsupported-width", "rep.w #0x1234"),
     ("unsupported-width", "ldx.l 0x123456"), ("branch-range", "bra zz_far\n.incbin 'pad200.bin'\nzz_far:"),
+    ("unmapped-org", "*=0x7d0000\nnop"), ("unmapped-org", "*=0x7d0000\nnop"), ("unmapped-org", "*=0x7d0000\nnop"),
     ("unmapped-org", "*=0x7d0000\nnop"), ("missing-include", ".include 'zz_missing.s'"),
     ("missing-incbin", ".incbin 'zz_missing.bin'"), ("missing-table", ".table 'zz_missing.tbl'"),
     ("missing-ips", ".include_ips 'zz_missing.ips', 0"), ("malformed-patch", ".include_ips 'bad.ips', 0"),
@@ -110,8 +111,13 @@ def cases(ctx):
                     spots.append(i)
                 depth += ln.count("{") - ln.count("}")
             pos = rng.choice(spots) if spots else len(lines)
-            if kind == "unmapped-org" and rom == "high":
-                fault = "*=0x200000\nnop"
+            if kind == "unmapped-org":
+                # every stretch of banks the mapping in force leaves unmapped (also as a @= target, and reached by walking
+                # out of the last mapped bank of a mirror range)
+                unmapped = {"high": ["*=0x200000\nnop", "*=0x008000\nnop", "*=0x3f0000\nnop", "*=0x808000\nnop", "*=0xbfffff\nnop", "@=0x100000\nnop"]}.get(
+                    rom, ["*=0x7d0000\nnop", "*=0x708000\nnop", "*=0xd08000\nnop", "*=0xef8000\nnop", "*=0xf08000\nnop", "*=0xff8000\nnop",
+                          "@=0xd08000\nnop", "@=0xef8000\nnop", "*=0xcffffe\n.dw 1, 2\nnop", "*=0x6ffffe\n.dw 1, 2\nnop"])
+                fault = rng.choice(unmapped)
             if kind == "run-off-mapped" and rom == "high":
                 fault = "*=0xFFFFFC\n.dw 1, 2, 3, 4\nnop"
             src = "\n".join(lines[:pos] + [fault] + lines[pos:])
